@@ -280,7 +280,8 @@ func runC10(c *Ctx) {
 			c.Check("C10.P1", "deepCopy:decode-error-propagated", false, ap.Pos(), "no JSON round trip of the document found")
 		}
 	}
-	c.Min("C10.P1", 4)
+	c.jsonPatchFoldRule("C10.P1")
+	c.Min("C10.P1", 5)
 
 	c.composerSkeletons("C10.X2", handlers)
 	c.Min("C10.X2", 12)
@@ -1216,4 +1217,92 @@ func (c *Ctx) jsonRoundTripCellEnv(f *ssa.Function, al *ssa.Alloc, env Env) (str
 		}
 	}
 	return "", nil, false
+}
+
+// jsonPatchFoldRule: the function that hands RFC 6902 operations to the json-patch library threads the document bytes
+// through them — the bytes given to Apply in one iteration are the bytes the previous Apply returned (the caller's bytes
+// in the first), every successful exit returns those bytes, and nothing but the library produces them. (Each operation
+// applied to the original bytes, or an operation applied by other code, breaks "applies RFC 6902 to the other members".)
+func (c *Ctx) jsonPatchFoldRule(rule string) {
+	h := c.composerHandlers()["ietf-json-patch"]
+	if h == nil {
+		c.Unresolved(rule, "handler for ietf-json-patch")
+		return
+	}
+	var site *ssa.Call
+	var fn *ssa.Function
+	for _, g := range c.reachableModuleFuncs([]*ssa.Function{h}) {
+		forEachInstr(g, func(in ssa.Instruction) {
+			if cl, ok := in.(*ssa.Call); ok && cl.Call.StaticCallee() != nil {
+				switch cl.Call.StaticCallee().String() {
+				case "(github.com/evanphx/json-patch.Patch).Apply", "(github.com/evanphx/json-patch.Patch).ApplyIndent":
+					site, fn = cl, g
+				}
+			}
+		})
+	}
+	if site == nil {
+		c.Check(rule, "json-patch:applied-through-the-library", false, h.Pos(), "no call of the json-patch library's Apply in the call tree of the ietf-json-patch handler")
+		return
+	}
+	c.Analysed(fn)
+	inLoop := false
+	for _, l := range naturalLoops(fn) {
+		if l.blocks[site.Block()] {
+			inLoop = true
+		}
+	}
+	doc := site.Call.Args[1]
+	ok := true
+	why := ""
+	if inLoop {
+		phi, isPhi := doc.(*ssa.Phi)
+		if !isPhi {
+			ok, why = false, "the bytes handed to Apply inside the loop are "+c.Path(doc, nil)+", not the running result of the previous operation"
+		} else {
+			prev := false
+			for _, e := range phi.Edges {
+				switch {
+				case e == extractOf(site, 0):
+					prev = true
+				case c.isParamOrConv(e):
+				default:
+					ok, why = false, "the running document bytes also come from "+c.Path(e, nil)+" — something other than the library's Apply produces them"
+				}
+			}
+			if !prev {
+				ok, why = false, "the result of Apply is not fed into the next operation"
+			}
+			for _, r := range successReturns(fn) {
+				if rv := returnedValue(r, 0); rv != ssa.Value(phi) {
+					ok, why = false, "a successful exit returns "+c.Path(rv, nil)+" instead of the running result"
+				}
+			}
+		}
+	} else {
+		// the whole patch in one call: the result returned must be Apply's
+		for _, r := range successReturns(fn) {
+			if rv := returnedValue(r, 0); rv != extractOf(site, 0) {
+				ok, why = false, "a successful exit returns "+c.Path(rv, nil)+" instead of the library's result"
+			}
+		}
+	}
+	c.Check(rule, "json-patch:operations-threaded-through-the-library", ok, site.Pos(), "RFC 6902 operations are a left fold of the library's Apply over the document bytes "+why)
+}
+
+// isParamOrConv: the value is a parameter of its function (possibly converted).
+func (c *Ctx) isParamOrConv(v ssa.Value) bool {
+	for d := 0; d < 3; d++ {
+		switch x := v.(type) {
+		case *ssa.Parameter:
+			return true
+		case *ssa.ChangeType:
+			v = x.X
+		case *ssa.Convert:
+			v = x.X
+		default:
+			return false
+		}
+	}
+	return false
 }
